@@ -92,6 +92,15 @@ template <class T, glm::qualifier Q, int N> static void reg_square() {
 	       SC { long double m = amax<T>(in, 0, N * N), p = 1; for (int i = 0; i < N; ++i) p *= m; return p * (N == 4 ? 24 : N == 3 ? 6 : 2); });
 	// inverse on well-conditioned inputs (domain W: identity-dominant matrix I*d + small perturbation)
 	add_op(nm<T, Q>("inverse", shape.c_str()), aW, oM, 'U', 'R', 256, FN { STM(out, glm::inverse(LDM<N, N, T, Q>(in))); }, SC { return 1.0L; });
+	// the same well-conditioned matrix scaled by 2^k, k in [-31, 31]: the determinant runs to both ends of the exponent range, where a
+	// hardware reciprocal estimate (0 above 2^126, inf for subnormals) would show even after Newton steps
+	add_op(nm<T, Q>("inverse_scaled", shape.c_str()), strdup((std::string(aW) + " iE1").c_str()), oM, 'U', 'R', 256,
+	       FN { glm::mat<N, N, T, Q> m = LDM<N, N, T, Q>(in); int k = (int)(((unsigned)in[N * N].i) % 63u) - 31; m = m * (T)std::ldexp(1.0, k); STM(out, glm::inverse(m)); },
+	       SC { int k = (int)(((unsigned)in[N * N].i) % 63u) - 31; return ldexpl(1.0L, -k); },
+	       SC {  // determinant (about 2^(N k) times 1..256) must stay a normal number of T well inside the range
+		       int k = (int)(((unsigned)in[N * N].i) % 63u) - 31; long double lg = (long double)N * k;
+		       long double lim = (sizeof(T) == 4 ? 118.0L : 1000.0L);
+		       return (lg > lim || lg < -lim) ? 0.0L : 1.0L; });
 	add_op(nm<T, Q>("inverseTranspose", shape.c_str()), aW, oM, 'U', 'R', 256, FN { STM(out, glm::inverseTranspose(LDM<N, N, T, Q>(in))); }, SC { return 1.0L; });
 	add_op(nm<T, Q>("div_mat", shape.c_str()), strdup((std::string(aM) + " " + aW).c_str()), oM, 'U', 'R', 256, FN { STM(out, LDM<N, N, T, Q>(in) / LDM<N, N, T, Q>(in + N * N)); }, SC { return N * amax<T>(in, 0, N * N); });
 }
